@@ -295,9 +295,13 @@ type WalkRun struct {
 
 func (gr *Graph) run(sel selector.Selector, cfg WalkCfg, matchingOnly bool) (r WalkRun) {
 	ls := gr.LS
+	nested := false
 	inner := ls.StorageReadOpener
 	ls.StorageReadOpener = func(lc linking.LinkContext, l datamodel.Link) (io.Reader, error) {
 		b := gr.BlockOf[l.Binary()]
+		if nested {
+			return inner(lc, l) // a look-ahead walk started inside a visit: not part of the walk under test
+		}
 		r.loads = append(r.loads, b)
 		if b >= 1 && b <= len(cfg.Skip) && cfg.Skip[b-1] {
 			return nil, traversal.SkipMe{}
@@ -358,7 +362,19 @@ func (gr *Graph) run(sel selector.Selector, cfg WalkCfg, matchingOnly bool) (r W
 				return nil
 			})
 		} else {
+			lookedAhead := false
 			r.err = prog.WalkAdv(gr.Root, sel, func(p traversal.Progress, n datamodel.Node, vr traversal.VisitReason) error {
+				// Visit-once walks without budgets: at the first visit the callback starts a walk OF ITS OWN with the
+				// Progress it was handed (a look-ahead).  A walk keeps its own record of the links it has seen: the walk
+				// under test goes on as if nothing had happened.
+				if cfg.Once && cfg.Nb < 0 && cfg.Lb < 0 && !lookedAhead {
+					lookedAhead = true
+					nested = true
+					model.Safe(func() {
+						p.WalkAdv(n, sel, func(traversal.Progress, datamodel.Node, traversal.VisitReason) error { return nil })
+					})
+					nested = false
+				}
 				reason := "c"
 				if vr == traversal.VisitReason_SelectionMatch {
 					reason = "m"
